@@ -2,6 +2,7 @@ package strconv
 
 import (
 	"math"
+	stdstrconv "strconv"
 )
 
 // ParseDecimal parses number of the format 1.2
@@ -78,6 +79,21 @@ func AppendDecimal(b []byte, f float64, dec int) []byte {
 
 	if dec < 0 || 17 < dec {
 		dec = 17
+	}
+	if fdec := math.Abs(f) * math.Pow10(dec); 9.0e18 <= fdec {
+		// does not fit in an int64
+		b = stdstrconv.AppendFloat(b, f, 'f', dec, 64)
+		if 0 < dec {
+			n := len(b)
+			for b[n-1] == '0' {
+				n-- // remove trailing zeros
+			}
+			if b[n-1] == '.' {
+				n--
+			}
+			b = b[:n]
+		}
+		return b
 	}
 	f *= math.Pow10(dec)
 
